@@ -7,6 +7,7 @@ with the regenerated table `Earverif.Gen.C19`.
 import Earverif.Model.Conversion
 import Earverif.Gen.C19_Tables
 import Earverif.Proofs.C19Round
+import Earverif.Proofs.C19Extent
 
 namespace Earverif.Conv
 
@@ -32,12 +33,13 @@ def ringOK (azs : List Rat) : Bool :=
   ((cyc azs).map (fun p => cwStep p.1 p.2)).sum == 360
 
 /-- Azimuth (ADM convention, `-atan2(x, y)` in degrees) of the eight points of
-the unit square with coordinates in `{-1, 0, 1}`; justified over `ℝ` by
-`cartAz_octant` below. -/
+the unit square with coordinates in `{-1, 0, 1}`, exactly as the model's `cartAz`
+computes it over `ℝ` (`octAz_is_cartAz` below; straight behind is `-180`, the
+value `-degrees(atan2(0, -1))` gives — no row of the regenerated table uses it). -/
 def octAz (x y : Rat) : Option Rat :=
   if x = 0 ∧ y = 1 then some 0 else if x = 1 ∧ y = 1 then some (-45)
   else if x = 1 ∧ y = 0 then some (-90) else if x = 1 ∧ y = -1 then some (-135)
-  else if x = 0 ∧ y = -1 then some 180 else if x = -1 ∧ y = -1 then some 135
+  else if x = 0 ∧ y = -1 then some (-180) else if x = -1 ∧ y = -1 then some 135
   else if x = -1 ∧ y = 0 then some 90 else if x = -1 ∧ y = 1 then some 45
   else none
 
@@ -51,7 +53,10 @@ midpoint they stand for (property text; BS.2127-0 section 10): `(az, x, y)`. -/
 def referenceRows : List (Rat × Rat × Rat × Rat) :=
   [(0, 0, 1, 0), (-30, 1, 1, 0), (30, -1, 1, 0), (-110, 1, -1, 0), (110, -1, -1, 0)]
 
-/-- **sector_boundaries_match** (table obligation).  For the regenerated table:
+/-- **sector_boundaries_match** (table obligation, independent of the round-trip proofs: those evaluate the
+regenerated table to its five sectors by `sectors_RP` (`rfl`) and prove lookup soundness/totality on them directly;
+this `decide` obligation re-states the ring structure on the rational table alone, so that a changed table is
+reported by a readable obligation and not only by `sectors_RP` failing).  For the regenerated table:
 the polar ends of the rows form a clockwise ring covering the full circle once
 with sector half-widths `< 90°`; the Cartesian ends of the same rows are square
 points in the horizontal plane whose azimuths form such a ring too (so sector
@@ -181,6 +186,40 @@ theorem block_conversion_touches_only (P : Params α) (b b' : Block α L R) :
         split at h
         · simp at h
         · simp at h; subst h; simp [Block.lock]
+
+/-! ### the conversion stage on a whole channel (`convert_objects_to_polar` / `_to_cartesian`) -/
+
+theorem wrapDrain_eq_map {β γ : Type} (f : β → γ) : ∀ (src : List β) (n : Nat), src.length < n →
+    wrapDrain f n src = src.map f
+  | [], n + 1, _ => rfl
+  | b :: rest, n + 1, h => by
+    simp only [wrapDrain, wrapNext, List.map_cons]
+    rw [wrapDrain_eq_map f rest n (by simpa using h)]
+  | _, 0, h => by simp at h
+
+/-- **convert_stage_blockwise**: pulling a channel's blocks through the wrapper that `convert_objects_to_polar`
+/ `convert_objects_to_cartesian` install yields, in order, exactly `to_polar` / `to_cartesian` of each block — as
+many blocks as went in, each converted independently of its position in the channel and of the blocks before it (the
+wrapper carries no state besides its inner source).  Hence every block-level theorem (`toPolar_result`,
+`block_conversion_touches_only`, `block_conversion_idempotent`, the round trips) holds for every block of a channel
+with mixed coordinate systems. -/
+theorem convert_stage_blockwise (P : Params α) (blocks : List (Block α L R)) :
+    convertObjectsToPolar P blocks = blocks.map (toPolar P) ∧
+    convertObjectsToCartesian P blocks = blocks.map (toCartesian P) :=
+  ⟨wrapDrain_eq_map _ _ _ (Nat.lt_succ_self _), wrapDrain_eq_map _ _ _ (Nat.lt_succ_self _)⟩
+
+/-- Every block a converted channel yields is in the target coordinates, whatever the first block was. -/
+theorem convert_stage_all_converted (P : Params α) (blocks : List (Block α L R)) (b' : Block α L R) :
+    (some b' ∈ convertObjectsToPolar P blocks → b'.isPolar = true ∧ b'.cartesian = false) ∧
+    (some b' ∈ convertObjectsToCartesian P blocks → b'.isPolar = false ∧ b'.cartesian = true) := by
+  rw [(convert_stage_blockwise P blocks).1, (convert_stage_blockwise P blocks).2]
+  constructor
+  · intro h
+    obtain ⟨b, _, hb⟩ := List.mem_map.mp h
+    exact toPolar_result P b b' hb
+  · intro h
+    obtain ⟨b, _, hb⟩ := List.mem_map.mp h
+    exact toCartesian_result P b b' hb
 
 end block
 
@@ -570,5 +609,251 @@ example : ∃ az el d i j, pointCartToPolar (RP 8) (-2) (1/2) 3 = some ((az, el,
   cart_polar_cart 7 (-2) (1/2) 3 (by norm_num [abs_lt])
 
 end real
+
+/-! ### Success of the block conversions (no sector `assert`), excluded points, reference rows, extents -/
+
+section total
+variable {L R : Type}
+
+/-- **toPolar_total**: on the table model `to_polar` succeeds on every block (any position inside or outside the
+cube, any extent, any flag): the hypothesis `= some b'` of `block_conversion_idempotent`,
+`block_conversion_touches_only`, `toPolar_result` is always satisfied. -/
+theorem toPolar_total (m : Nat) (b : Block ℝ L R) : ∃ b', toPolar (RP (m + 1)) b = some b' := by
+  cases hp : b.isPolar with
+  | true => exact ⟨_, toPolar_of_polar _ b hp⟩
+  | false =>
+    obtain ⟨position, width, height, depth, cartesian, rest⟩ := b
+    cases position with
+    | polar az el d lock => simp [Block.isPolar] at hp
+    | cartesian x y z lock =>
+      obtain ⟨⟨⟨az, el, d⟩, w, h, dp⟩, hr⟩ := extentCartToPolar_total m x y z width depth height
+      refine ⟨⟨.polar az el d lock, w, h, dp, false, rest⟩, ?_⟩
+      unfold toPolar fixCartesianFlag
+      simp [hr]
+
+/-- **toCartesian_total**: `to_cartesian` succeeds on every block whose azimuth (if its position is polar) lies in
+the ADM range `[-180, 180]`; blocks with a Cartesian position always succeed (by construction: only the flag is set).
+Outside that azimuth range the real code keeps looping `relative_angle` (the model's loops are on fuel); not covered. -/
+theorem toCartesian_total (m : Nat) (b : Block ℝ L R)
+    (haz : ∀ az el d lock, b.position = .polar az el d lock → -180 ≤ az ∧ az ≤ 180) :
+    ∃ b', toCartesian (RP (m + 1)) b = some b' := by
+  cases hp : b.isPolar with
+  | false => exact ⟨_, toCartesian_of_cartesian _ b hp⟩
+  | true =>
+    obtain ⟨position, width, height, depth, cartesian, rest⟩ := b
+    cases position with
+    | cartesian x y z lock => simp [Block.isPolar] at hp
+    | polar az el d lock =>
+      obtain ⟨h1, h2⟩ := haz az el d lock rfl
+      obtain ⟨⟨⟨x, y, z⟩, w, dp, h⟩, hr⟩ := extentPolarToCart_total m az el d width height depth h1 h2
+      refine ⟨⟨.cartesian x y z lock, w, h, dp, true, rest⟩, ?_⟩
+      unfold toCartesian fixCartesianFlag
+      simp [hr]
+
+/-- **block_conversion_idempotent**, unconditional form for the table model: `to_polar` always returns a block, and
+converting that block again returns it unchanged; the same for `to_cartesian` on ADM-range azimuths. -/
+theorem block_conversion_idempotent_total (m : Nat) (b : Block ℝ L R) :
+    (∃ b', toPolar (RP (m + 1)) b = some b' ∧ toPolar (RP (m + 1)) b' = some b') ∧
+    ((∀ az el d lock, b.position = .polar az el d lock → -180 ≤ az ∧ az ≤ 180) →
+      ∃ b', toCartesian (RP (m + 1)) b = some b' ∧ toCartesian (RP (m + 1)) b' = some b') := by
+  constructor
+  · obtain ⟨b', h⟩ := toPolar_total m b
+    exact ⟨b', h, (block_conversion_idempotent _ b b').1 h⟩
+  · intro haz
+    obtain ⟨b', h⟩ := toCartesian_total m b haz
+    exact ⟨b', h, (block_conversion_idempotent _ b b').2.1 h⟩
+
+/-- Non-vacuity of the `= some b'` hypotheses: a concrete Cartesian block (a cube corner with a non-zero extent and an
+inconsistent flag) yields `some` polar block, and converting it again gives the same block. -/
+example : ∃ b' : Block ℝ Unit Unit,
+    toPolar (RP 8) ⟨.cartesian 1 (-1) 1 (), 1/10, 0, 1/5, false, ()⟩ = some b' ∧ b'.isPolar = true ∧
+      toPolar (RP 8) b' = some b' := by
+  obtain ⟨b', h⟩ := toPolar_total 7 (⟨.cartesian 1 (-1) 1 (), 1/10, 0, 1/5, false, ()⟩ : Block ℝ Unit Unit)
+  exact ⟨b', h, (toPolar_result _ _ b' h).1, (block_conversion_idempotent _ _ b').1 h⟩
+
+/-- a polar block at azimuth −170 (across the ±180 wrap) satisfies the hypothesis of `toCartesian_total` -/
+example : ∃ b' : Block ℝ Unit Unit, toCartesian (RP 8) ⟨.polar (-170) 20 1 (), 30, 10, 0, true, ()⟩ = some b' :=
+  toCartesian_total 7 _ (by
+    intro az el d lock h
+    simp only [Pos.polar.injEq] at h
+    obtain ⟨rfl, -, -, -⟩ := h
+    norm_num)
+
+/-- **Extent ranges at block level**: a Cartesian block whose sizes lie in `[0, 1]` converts to a polar block with
+width and height in `[0, 360]` and depth in `[0, 1]`; a polar block with extents in those ranges converts to a
+Cartesian block with sizes in `[0, 1]` (any parameters `P`, whenever the conversion returns a block). -/
+theorem block_extent_ranges (P : Params ℝ) (b b' : Block ℝ L R) :
+    (toPolar P b = some b' → b.isPolar = false →
+      (0 ≤ b.width ∧ b.width ≤ 1) → (0 ≤ b.height ∧ b.height ≤ 1) → (0 ≤ b.depth ∧ b.depth ≤ 1) →
+      (0 ≤ b'.width ∧ b'.width ≤ 360) ∧ (0 ≤ b'.height ∧ b'.height ≤ 360) ∧ (0 ≤ b'.depth ∧ b'.depth ≤ 1)) ∧
+    (toCartesian P b = some b' → b.isPolar = true →
+      (0 ≤ b.width ∧ b.width ≤ 360) → (0 ≤ b.height ∧ b.height ≤ 360) → (0 ≤ b.depth ∧ b.depth ≤ 1) →
+      (0 ≤ b'.width ∧ b'.width ≤ 1) ∧ (0 ≤ b'.height ∧ b'.height ≤ 1) ∧ (0 ≤ b'.depth ∧ b'.depth ≤ 1)) := by
+  obtain ⟨position, width, height, depth, cartesian, rest⟩ := b
+  constructor
+  · intro h hp hw hh hd
+    cases position with
+    | polar az el d lock => simp [Block.isPolar] at hp
+    | cartesian x y z lock =>
+      unfold toPolar fixCartesianFlag at h
+      simp only [Bool.not_true, Bool.false_eq_true, if_false] at h
+      cases hr : extentCartToPolar P x y z width depth height with
+      | none => rw [hr] at h; simp at h
+      | some r =>
+        obtain ⟨⟨az, el, d⟩, w, h', dp⟩ := r
+        rw [hr] at h
+        simp only [Option.some.injEq] at h
+        subst h
+        exact extentCartToPolar_range P x y z width depth height hw.1 hw.2 hd.1 hd.2 hh.1 hh.2 _ hr
+  · intro h hp hw hh hd
+    cases position with
+    | cartesian x y z lock => simp [Block.isPolar] at hp
+    | polar az el d lock =>
+      unfold toCartesian fixCartesianFlag at h
+      simp only [Bool.false_eq_true, if_false] at h
+      cases hr : extentPolarToCart P az el d width height depth with
+      | none => rw [hr] at h; simp at h
+      | some r =>
+        obtain ⟨⟨x, y, z⟩, w, dp, h'⟩ := r
+        rw [hr] at h
+        simp only [Option.some.injEq] at h
+        subst h
+        obtain ⟨a, b, c⟩ := extentPolarToCart_range P az el d width height depth hw.1 hw.2 hh.1 hh.2 hd.1 hd.2 _ hr
+        exact ⟨a, c, b⟩
+
+/-- **Zero extent ↦ zero extent, both ways**: a point source stays a point source. -/
+theorem block_zero_extent (P : Params ℝ) (b b' : Block ℝ L R) (hw : b.width = 0) (hh : b.height = 0)
+    (hd : b.depth = 0) :
+    (toPolar P b = some b' → b'.width = 0 ∧ b'.height = 0 ∧ b'.depth = 0) ∧
+    (toCartesian P b = some b' → b'.width = 0 ∧ b'.height = 0 ∧ b'.depth = 0) := by
+  obtain ⟨position, width, height, depth, cartesian, rest⟩ := b
+  simp only at hw hh hd
+  subst hw hh hd
+  constructor
+  · intro h
+    cases position with
+    | polar az el d lock =>
+      rw [toPolar_of_polar P _ rfl] at h
+      simp only [Option.some.injEq] at h
+      subst h; simp
+    | cartesian x y z lock =>
+      unfold toPolar fixCartesianFlag at h
+      simp only [Bool.not_true, Bool.false_eq_true, if_false] at h
+      cases hr : extentCartToPolar P x y z 0 0 0 with
+      | none => rw [hr] at h; simp at h
+      | some r =>
+        have hz := extentCartToPolar_zero P x y z r hr
+        obtain ⟨⟨az, el, d⟩, w, h', dp⟩ := r
+        rw [hr] at h
+        simp only [Option.some.injEq] at h
+        subst h
+        simp only [Prod.mk.injEq] at hz
+        exact hz
+  · intro h
+    cases position with
+    | cartesian x y z lock =>
+      rw [toCartesian_of_cartesian P _ rfl] at h
+      simp only [Option.some.injEq] at h
+      subst h; simp
+    | polar az el d lock =>
+      unfold toCartesian fixCartesianFlag at h
+      simp only [Bool.false_eq_true, if_false] at h
+      cases hr : extentPolarToCart P az el d 0 0 0 with
+      | none => rw [hr] at h; simp at h
+      | some r =>
+        have hz := extentPolarToCart_zero P az el d r hr
+        obtain ⟨⟨x, y, z⟩, w, dp, h'⟩ := r
+        rw [hr] at h
+        simp only [Option.some.injEq] at h
+        subst h
+        simp only [Prod.mk.injEq] at hz
+        exact ⟨hz.1, hz.2.2, hz.2.1⟩
+
+end total
+
+section excluded
+open Real
+
+/-- **polar_pole_roundtrip** — the poles are inside the property's quantifier ("wherever azimuth is defined" excludes
+only the azimuth): for `|el| = 90`, any azimuth in `[-180, 180]` and `d ≥ 1e-10`, the image is exactly `(0, 0, ±d)`
+and converting back returns the original elevation and distance; the azimuth (undefined at the pole) comes back
+as `0`.  (For `0 < d < 1e-10` the image falls in the origin guard: `cart_polar_cart_snap`.) -/
+theorem polar_pole_roundtrip (m : Nat) (az el d : ℝ) (h1 : -180 ≤ az) (h2 : az ≤ 180) (hel : |el| = 90)
+    (hd : 1 / 10000000000 ≤ d) :
+    ∃ i, pointPolarToCart (RP (m + 1)) az el d = some ((0, 0, d * Conv.sign el), i) ∧
+      pointCartToPolar (RP (m + 1)) 0 0 (d * Conv.sign el) = some ((0, el, d), none) := by
+  obtain ⟨i, hi⟩ := polarToCart_axis m az el d _ h1 h2 (elToCart_pole (m + 1) el d hel)
+  refine ⟨i, hi, ?_⟩
+  have hd0 : 0 < d := by linarith
+  have hs : Conv.sign el = 1 ∧ el = 90 ∨ Conv.sign el = -1 ∧ el = -90 := by
+    rcases abs_eq (by norm_num : (0:ℝ) ≤ 90) |>.mp hel with h | h
+    · left; exact ⟨by rw [h]; exact sign_pos (by norm_num), h⟩
+    · right; exact ⟨by rw [h]; exact sign_neg (by norm_num), h⟩
+  have hsnap : abs (0:ℝ) < k (1 / 10000000000) ∧ abs (0:ℝ) < k (1 / 10000000000) := by
+    rw [abs_real, k_eps]; norm_num
+  rw [pointCartToPolar_eq, if_pos hsnap]
+  rcases hs with ⟨hs, he⟩ | ⟨hs, he⟩
+  · rw [hs, mul_one, if_neg (by rw [abs_real, k_eps, abs_of_pos hd0]; linarith), sign_pos hd0, abs_real,
+      abs_of_pos hd0, k0, k90, he]; norm_num
+  · rw [hs, mul_neg, mul_one, if_neg (by rw [abs_real, k_eps, abs_neg, abs_of_pos hd0]; linarith),
+      sign_neg (by linarith), abs_real, abs_neg, abs_of_pos hd0, k0, k90, he]; norm_num
+
+/-- **polar_zero_distance** — `d = 0` is inside the property's quantifier: every polar position at distance `0`
+(any azimuth in `[-180, 180]`, any elevation) maps exactly to the origin, and the origin maps back to distance
+`0`; azimuth and elevation (undefined at the origin) come back as `0`.  Together with `cart_polar_cart_snap`
+(`|z| < 1e-10` case) this is the round trip of the origin in both directions. -/
+theorem polar_zero_distance (m : Nat) (az el : ℝ) (h1 : -180 ≤ az) (h2 : az ≤ 180) :
+    ∃ i, pointPolarToCart (RP (m + 1)) az el 0 = some ((0, 0, 0), i) ∧
+      pointCartToPolar (RP (m + 1)) 0 0 0 = some ((0, 0, 0), none) := by
+  obtain ⟨i, hi⟩ := polarToCart_axis m az el 0 0 h1 h2 (elToCart_zero (m + 1) el)
+  refine ⟨i, hi, ?_⟩
+  have hsnap : abs (0:ℝ) < k (1 / 10000000000) := by rw [abs_real, k_eps]; norm_num
+  rw [pointCartToPolar_eq, if_pos ⟨hsnap, hsnap⟩, if_pos hsnap, k0]
+
+/-- non-vacuity: straight up from azimuth 50 at distance 2 -/
+example : ∃ i, pointPolarToCart (RP 8) 50 90 2 = some ((0, 0, 2 * Conv.sign 90), i) ∧
+    pointCartToPolar (RP 8) 0 0 (2 * Conv.sign 90) = some ((0, 90, 2), none) :=
+  polar_pole_roundtrip 7 50 90 2 (by norm_num) (by norm_num) (by norm_num) (by norm_num)
+
+/-- `octAz` (used by the rational table obligation `sector_boundaries_match`) is what the model's `cartAz` computes
+over ℝ at the eight square points, straight behind included (`-180`). -/
+theorem octAz_is_cartAz (x y a : ℚ) (h : octAz x y = some a) : cartAz (x : ℝ) (y : ℝ) = (a : ℝ) := by
+  obtain ⟨c1, c2, c3, c4, c5, c6, c7, c8⟩ := cartAz_octant
+  unfold octAz at h
+  split_ifs at h with h1 h2 h3 h4 h5 h6 h7 h8 <;> simp only [Option.some.injEq] at h <;> subst h
+  · obtain ⟨rfl, rfl⟩ := h1; simpa using c1
+  · obtain ⟨rfl, rfl⟩ := h2; simpa using c2
+  · obtain ⟨rfl, rfl⟩ := h3; simpa using c3
+  · obtain ⟨rfl, rfl⟩ := h4; simpa using c4
+  · obtain ⟨rfl, rfl⟩ := h5; simpa using c5
+  · obtain ⟨rfl, rfl⟩ := h6; simpa using c6
+  · obtain ⟨rfl, rfl⟩ := h7; simpa using c7
+  · obtain ⟨rfl, rfl⟩ := h8; simpa using c8
+
+/-- **corners_exact over `referenceRows`**: every reference direction `(az, x, y, _)` of the property text (0, ±30,
+±110 with the front edge midpoint / the four square corners) at elevation 0 / 30 / −30 and distance `d > 0` maps
+exactly to `d·(x, y, 0)`, `d·(x, y, 1)`, `d·(x, y, −1)`.  "Edge midpoints" are the front one (this theorem, row
+`az = 0`) and the back one (`corner_back`, `az = ±180`); the side midpoints `(±1, 0)` are not reference
+directions of the table (they are the images of `az = ∓70`). -/
+theorem corners_exact_reference (m : Nat) (r : ℚ × ℚ × ℚ × ℚ) (hr : r ∈ referenceRows) (d : ℝ) (hd : 0 < d) :
+    (∃ j, pointPolarToCart (RP (m + 1)) (r.1 : ℝ) 0 d = some ((d * (r.2.1 : ℝ), d * (r.2.2.1 : ℝ), 0), j)) ∧
+    (∃ j, pointPolarToCart (RP (m + 1)) (r.1 : ℝ) 30 d = some ((d * (r.2.1 : ℝ), d * (r.2.2.1 : ℝ), d), j)) ∧
+    (∃ j, pointPolarToCart (RP (m + 1)) (r.1 : ℝ) (-30) d = some ((d * (r.2.1 : ℝ), d * (r.2.2.1 : ℝ), -d), j)) := by
+  have mem : ∀ s, s ∈ [sec0, sec1, sec2, sec3, sec4] → s ∈ sectors (RP (m + 1)) := by
+    intro s hs; rw [sectors_RP]; exact hs
+  simp only [referenceRows, List.mem_cons, List.not_mem_nil, or_false] at hr
+  rcases hr with rfl | rfl | rfl | rfl | rfl
+  · have := corners_exact_points m sec4 (mem _ (by simp)) d hd
+    simpa [sec4] using this
+  · have := corners_exact_points m sec0 (mem _ (by simp)) d hd
+    simpa [sec0] using this
+  · have := corners_exact_points m sec3 (mem _ (by simp)) d hd
+    simpa [sec3] using this
+  · have := corners_exact_points m sec1 (mem _ (by simp)) d hd
+    simpa [sec1] using this
+  · have := corners_exact_points m sec2 (mem _ (by simp)) d hd
+    simpa [sec2] using this
+
+end excluded
 
 end Earverif.Conv
